@@ -50,6 +50,9 @@ def make(dtype, shape, seed, kind):
         return rng.integers(-3, 4, size=shape).astype(dtype)
     if kind == "high":
         return (1000 + rng.normal(0, 1, size=shape)).astype(dtype)
+    if kind in ("tiny", "huge"):
+        # the unit of the data is arbitrary: amplitudes of 1e-6 or 1e+6
+        return (rng.normal(0, 10, size=shape) * (2.0**-20 if kind == "tiny" else 2.0**20)).astype(dtype)
     return rng.normal(0, 10, size=shape).astype(dtype)
 
 
@@ -60,7 +63,7 @@ def strat_running(draw):
     n = draw(st.one_of(st.integers(1, 12), st.integers(1, 200)))
     w = draw(st.one_of(st.integers(1, 2 * n + 3), st.integers(1, min(9, 2 * n + 3)), st.integers(n, 2 * n + 3)))
     return {"n": n, "w": w, "method": draw(st.sampled_from(["mean", "median"])), "dtype": draw(st.sampled_from(DTYPES)),
-            "seed": draw(st.integers(0, 2**31 - 1)), "kind": draw(st.sampled_from(["normal", "ties", "high"]))}
+            "seed": draw(st.integers(0, 2**31 - 1)), "kind": draw(st.sampled_from(["normal", "ties", "high", "tiny", "huge"]))}
 
 
 def check_running(case, ctx):
@@ -111,7 +114,7 @@ def strat_decimate(draw):
     d2 = draw(st.integers(1, 24))
     return {"d1": d1, "d2": d2, "f1": draw(st.integers(1, d1)), "f2": draw(st.integers(1, d2)),
             "dtype": draw(st.sampled_from(DTYPES)), "seed": draw(st.integers(0, 2**31 - 1)),
-            "kind": draw(st.sampled_from(["normal", "ties", "high"])), "method": draw(st.sampled_from(["mean", "median"]))}
+            "kind": draw(st.sampled_from(["normal", "ties", "high", "tiny", "huge"])), "method": draw(st.sampled_from(["mean", "median"]))}
 
 
 def reduce_ref(x2, f1, f2, method):
